@@ -102,6 +102,21 @@ func (e *Engine) installStubs() {
 		N := BVu(uint64(n), 64)
 		return singleSlice(l, BVu(0, 64), N, N)
 	}
+	S["verif:verifBytesBig"] = func(e *Engine, st *State, c *callInfo, a []Value) Value {
+		name := mustConcreteStr(a[0], "verifBytesBig name")
+		mx, ok := argTerm(a[1]).ConstInt()
+		if !ok {
+			panic(unsupported("verifBytesBig: max must be concrete"))
+		}
+		arr := ArrVar(name, 8)
+		arr.Input = true
+		ln := InputVar(name+".len", 64)
+		varBounds[name+".len"] = mx
+		st.assume(Ule(ln, BVu(uint64(mx), 64)))
+		e.bounds["len("+name+")"] = fmt.Sprintf("0..%d (SMT array, arbitrary content)", mx)
+		l := e.alloc(st, &BigArrV{N: ln, Elem: types.Typ[types.Uint8], Leaves: []*Term{arr}})
+		return singleSlice(l, BVu(0, 64), ln, ln)
+	}
 	S["verif:verifStr"] = func(e *Engine, st *State, c *callInfo, a []Value) Value {
 		name := mustConcreteStr(a[0], "verifStr name")
 		mx, ok := argTerm(a[1]).ConstInt()
@@ -168,6 +183,11 @@ func (e *Engine) installStubs() {
 			return a[1]
 		}
 		return a[0]
+	}
+	S["verif:verifFreshBool"] = func(e *Engine, st *State, c *callInfo, a []Value) Value {
+		t := FreshBool("fresh")
+		t.Input = true
+		return t
 	}
 	S["verif:verifSymbolic"] = func(e *Engine, st *State, c *callInfo, a []Value) Value { return True() }
 	S["verif:verifNote"] = func(e *Engine, st *State, c *callInfo, a []Value) Value {
@@ -391,6 +411,28 @@ func (e *Engine) installStubs() {
 		}
 		return nil
 	}
+
+	S["math/big.NewInt"] = func(e *Engine, st *State, c *callInfo, a []Value) Value {
+		return singlePtr(e.alloc(st, &StructV{F: []Value{argTerm(a[0])}}))
+	}
+	S["(*math/big.Int).Int64"] = func(e *Engine, st *State, c *callInfo, a []Value) Value {
+		return e.load(st, fieldPtr(a[0].(*PtrV), 0), c.site)
+	}
+	S["crypto/rand.Int"] = func(e *Engine, st *State, c *callInfo, a []Value) Value {
+		mx := e.load(st, fieldPtr(a[1].(*PtrV), 0), c.site).(*Term)
+		r := Fresh("rand", 64)
+		r.Input = true
+		st.assume(And(Sle(BVu(0, 64), r), Slt(r, mx)))
+		e.noteAssumption("crypto/rand.Int(max): arbitrary value in [0,max), never an error")
+		return &TupleV{E: []Value{singlePtr(e.alloc(st, &StructV{F: []Value{r}})), nilIface()}}
+	}
+	S["math/rand.Intn"] = func(e *Engine, st *State, c *callInfo, a []Value) Value {
+		r := Fresh("rand", 64)
+		r.Input = true
+		st.assume(And(Sle(BVu(0, 64), r), Slt(r, argTerm(a[0]))))
+		return r
+	}
+	S["math/rand.Seed"] = func(e *Engine, st *State, c *callInfo, a []Value) Value { return nil }
 
 	installEnvStubs(e)
 }
